@@ -1,0 +1,25 @@
+//go:build verif
+
+// Contracts for govc (see /verif/DESIGN.md). Comment-only; compiled only with -tags verif.
+
+package bsupport
+
+//@ property C15
+
+// "transform chain: first DROP wins": the transforms are called in list order; calling stops right after the first one
+// that returns DROP (result DROP); if none does, all have been called and the result is PASS. Stated over the ghost call log,
+// for arbitrary child transforms — correctness of every nested program follows by structural induction.
+//@ func RunTransforms(record *base.LogRecord, transforms []base.LogTransformFunc) base.FilterResult
+//@   requires record != nil && forall j int :: 0 <= j && j < len(transforms) ==> transforms[j] != nil
+//@   modifies everything
+//@   preserves mem(base.LogTransformFunc), mem(base.LogFieldLocator), base.LogRecord.Fields
+//@   ensures[called-in-order-until-first-drop] exists k int :: 0 <= k && k <= len(transforms) && base.tlogn == old(base.tlogn) + k
+//@        && (forall j int :: 0 <= j && j < k ==> base.tlog[old(base.tlogn) + j] == ref(transforms[j]))
+//@        && (forall j int :: 0 <= j && j < k - 1 ==> base.tres[old(base.tlogn) + j] == 1)
+//@        && (result == base.DROP ==> k >= 1 && base.tres[old(base.tlogn) + k - 1] == 0)
+//@        && (result == base.PASS ==> k == len(transforms) && (k >= 1 ==> base.tres[old(base.tlogn) + k - 1] == 1))
+//@   ensures[earlier-log-kept] forall i int :: 0 <= i && i < old(base.tlogn) ==> base.tlog[i] == old(base.tlog[i]) && base.tres[i] == old(base.tres[i])
+//@   loop 1: invariant -1 <= rangeindex && rangeindex < len(transforms) && base.tlogn == old(base.tlogn) + rangeindex + 1 && record != nil
+//@   loop 1: invariant forall j int :: 0 <= j && j <= rangeindex ==> base.tlog[old(base.tlogn) + j] == ref(transforms[j]) && base.tres[old(base.tlogn) + j] == 1
+//@   loop 1: invariant forall i int :: 0 <= i && i < old(base.tlogn) ==> base.tlog[i] == old(base.tlog[i]) && base.tres[i] == old(base.tres[i])
+//@   loop 1: invariant forall j int :: 0 <= j && j < len(transforms) ==> transforms[j] != nil
